@@ -762,13 +762,17 @@ func txJSONCase(e *Env, t *gobinlog.Transaction, cls string) {
 	// and its result is looked at only after ANOTHER transaction has been serialised: the text that was handed out stays
 	// the text of this transaction
 	rec := safely(func() {
-		_, e2 := json.Marshal(t) // (what encoding/json says about the marshaler's output)
-		raw, err = json.Marshaler(t).MarshalJSON()
-		if err == nil {
-			err = e2
-		}
-		if lastJSONTx != nil {
-			json.Marshaler(lastJSONTx).MarshalJSON()
+		var e2 error
+		raw, e2 = json.Marshal(t) // (what encoding/json says about the marshaler's output)
+		err = e2
+		if m, ok := interface{}(t).(json.Marshaler); ok {
+			raw, err = m.MarshalJSON()
+			if err == nil {
+				err = e2
+			}
+			if lm, ok := interface{}(lastJSONTx).(json.Marshaler); ok && lastJSONTx != nil {
+				lm.MarshalJSON()
+			}
 		}
 	})
 	lastJSONTx = t
